@@ -10,7 +10,8 @@ from pipeline import (ImplFns, check_simulation, compare_value_arrays, explicit_
                       materialise_case, model_layout, model_solve)
 from dsl import params_impl
 
-FORCES = [["mixed"], ["mixed", "cont2"], ["filter"], ["cont2"], ["stoch"], ["f1"], ["constraint"], None, ["mixed", "stoch"], ["aux"], ["nofilter"], ["f1", "constraint"]]
+FORCES = [["mixed"], ["mixed", "cont2"], ["filter"], ["cont2", "flatc", "lower"], ["stoch"], ["f1"], ["constraint"], None, ["mixed", "stoch"], ["aux"], ["nofilter"],
+          ["f1", "constraint"], ["filter", "flatd"], ["flatc", "lower"], ["mixed", "flatd", "lower"], ["flatc", "flatd", "lower", "filter"]]
 AGENTS = [1, 6, 7, 11]
 
 
@@ -18,7 +19,7 @@ def sim_cases(seed, tier, n_quick=36, n_thorough=600):
     n = n_quick if tier == "quick" else n_thorough
     return [{"kind": "gen", "seed": seed * 1_000_003 + 7919 + i, "force": FORCES[i % len(FORCES)], "n_params": 1,
              "budget": 3000 if tier == "quick" else 12000, "n_agents": AGENTS[i % len(AGENTS)] if tier == "quick" else [1, 6, 7, 11, 64][i % 5],
-             "random_V": i % 4 == 3, "on_grid": i % 5 == 0} for i in range(n)]
+             "random_V": i % 4 == 3, "on_grid": i % 5 == 0, "int_init": i % 3 == 1} for i in range(n)]
 
 
 def random_value_arrays(r, mj):
@@ -47,6 +48,11 @@ def run_panel(case, want_targets=None):
         init = {s: [Fr(x) for x in v] for s, v in case["init"].items()}
     else:
         init = gen_initial_states(r, mj, n, on_grid=case.get("on_grid", False), meta=meta)
+        if case.get("int_init"):
+            # integer-valued starting points for the continuous states (passed with an integer dtype below)
+            for s, g in mj["states"]:
+                if g["k"] != "disc":
+                    init[s] = [Fr(int(Fr(g["a"])) + r.randint(-1, 3)) for _ in range(n)]
     info["init"] = init
     seed = case.get("sim_seed", r.randint(0, 10_000))
     info["sim_seed"] = seed
@@ -60,7 +66,7 @@ def run_panel(case, want_targets=None):
             V = random_value_arrays(r, mj)
         else:
             V = [I.np.asarray(v) for v in fns.solve(params_impl(P))]
-        df = fns.simulate(params_impl(P), initial_states=init_impl(mj, init), vf_arr_list=[I.jnp.asarray(v) for v in V],
+        df = fns.simulate(params_impl(P), initial_states=init_impl(mj, init, int_cont=bool(case.get("int_init"))), vf_arr_list=[I.jnp.asarray(v) for v in V],
                           seed=seed, **({"additional_targets": want_targets} if want_targets else {}))
     except Exception as e:  # noqa: BLE001
         info["raise"] = f"{impl_site(e)}: {str(e)[:300]}"
@@ -84,6 +90,9 @@ def base_out(info, case):
     h[f"random_V={bool(case.get('random_V'))}"] = 1
     for k in ("n_cc", "n_dc", "n_stoch"):
         h[f"{k}={meta.get(k)}"] = 1
+    h[f"flat_choices={len(meta.get('flat') or [])}"] = 1
+    h[f"lower_bound={bool(meta.get('lower_bound'))}"] = 1
+    h[f"int_init={bool(case.get('int_init'))}"] = 1
     return out
 
 
@@ -91,6 +100,6 @@ def replay_case(info, case):
     from dsl import params_json
 
     c = explicit_case(info["mj"], [info["P"]], n_agents=case.get("n_agents", 6), sim_seed=info.get("sim_seed", 0),
-                      init={s: [str(x) for x in v] for s, v in info["init"].items()}, random_V=case.get("random_V", False),
+                      init={s: [str(x) for x in v] for s, v in info["init"].items()}, random_V=case.get("random_V", False), int_init=case.get("int_init", False),
                       seed=case.get("seed", 0), meta=info["meta"])
     return c
